@@ -185,13 +185,19 @@ def popn(sk, *xs):
                 if not isinstance(ref, Fiber):
                     state["ok"] = False
                     return
-                loop(ref, pa, prefix + (c,), level + 1)
+                pref = prefix + (c,)
+                if not any(p_[:level] == pref for p_, _ in a_present):
+                    # an upper coordinate whose sub-fiber presents nothing (empty, or holding only defaults) is not one "a presents"
+                    state["ok"] = False
+                    state["why"] = "an upper coordinate whose sub-fiber presents nothing was offered"
+                    return
+                loop(ref, pa, pref, level + 1)
                 if not state["ok"]:
                     return
 
     loop(z, af, (), 1)
     if not state["ok"]:
-        return fail("offered sequence / reference value / well-formedness broke inside the loop nest")
+        return fail(state.get("why") or "offered sequence / reference value / well-formedness broke inside the loop nest")
     if state["k"] != len(a_present):
         return fail("not all of a's points were offered")
     if wf(z, d) < 0:
